@@ -10,6 +10,7 @@ import ParryModel.C16.Theorems6
 import ParryModel.C16.Theorems7
 import ParryModel.C16.Theorems8
 import ParryModel.C16.Theorems9
+import ParryModel.C16.Theorems10
 /-!
 # C16 property theorems: ear clipping and Hertel–Mehlhorn, for every linearly ordered field.
 
